@@ -1,0 +1,55 @@
+//go:build verif
+
+// Contracts for package fdo (module root), checked by /verif/govc (see
+// /verif/DESIGN.md). Comment-only file: it adds nothing to any build.
+package fdo
+
+// ---- vouchers (C04, used by C01/C06/C07) ---------------------------------------------
+
+// ChainOk(v) is DEFINED as "VerifyEntries(v) succeeded"; what that means is
+// pinned down by the step contract of validateNextEntry below.
+//@ func fdo.Voucher.VerifyEntries
+//@   props C04 C10(sweep)
+//@   sweep bounds,panic,make,nilmem
+//@   modifies nothing
+//@   ensures! err == nil ==> ChainOk(u(*v))
+//@   ensures @payloads err == nil ==> forall k in 0..len(v.Entries): v.Entries[k].Payload != nil
+//@   callassert validateNextEntry#1: @startkey u(arg0) == PubOf(u(v.Header.Val.ManufacturerKey))
+//@   callassert validateNextEntry#1: @starthash absorbed(arg2) == happ(happ(hinit(u(hashfn(alg))), Enc(u(v.Header.Val))), Enc(u(v.Hmac)))
+//@   callassert validateNextEntry#1: @startargs arg1 == v.Entries[0].Payload.Val.PreviousHash.Algorithm && arg4 == 0 && u(arg5) == u(v.Entries)
+
+//@ func fdo.validateNextEntry
+//@   props C04 C01 C06 C10(sweep)
+//@   sweep bounds,panic,make,nilmem
+//@   requires @nonempty len(entries) > 0
+//@   requires @hash prevHash != nil
+//@   modifies nothing
+//@   ensures @payloads err == nil ==> forall k in 0..len(entries): entries[k].Payload != nil
+//@   ensures @sig err == nil ==> SigOk(u(entries[0].Sign1), u(prevOwnerKey))
+//@   ensures @hdralg err == nil ==> entries[0].Payload.Val.HeaderHash.Algorithm == alg
+//@   ensures @hdrhash err == nil ==> bytes(entries[0].Payload.Val.HeaderHash.Value) == bytes(headerInfoHash)
+//@   ensures @prevhash err == nil ==> bytes(entries[0].Payload.Val.PreviousHash.Value) == digest(old(absorbed(prevHash)))
+//@   callassert validateNextEntry#1: @nextkey u(arg0) == PubOf(u(entries[0].Payload.Val.PublicKey))
+//@   callassert validateNextEntry#1: @nexthash absorbed(arg2) == happ(hinit(hashkind(prevHash)), Enc(u(entries[0])))
+//@   callassert validateNextEntry#1: @nextargs arg1 == alg && bytes(arg3) == bytes(headerInfoHash) && arg4 == i+1 && u(arg5) == u(entries[1:])
+
+//@ func fdo.Voucher.OwnerPublicKey
+//@   props C04 C06 C01 C10(sweep)
+//@   sweep bounds,panic,nilmem
+//@   pure
+//@   requires @payload len(v.Entries) > 0 ==> v.Entries[len(v.Entries)-1].Payload != nil
+//@   ensures @last err == nil && len(v.Entries) > 0 ==> u(result0) == PubOf(u(v.Entries[len(v.Entries)-1].Payload.Val.PublicKey))
+//@   ensures @mfg err == nil && len(v.Entries) == 0 ==> u(result0) == PubOf(u(v.Header.Val.ManufacturerKey))
+
+// ---- TO0 (C06) --------------------------------------------------------------------------------
+
+//@ func fdo.TO0Server.acceptOwner
+//@   props C06 C08 C10(sweep)
+//@   sweep bounds,panic,make,nilmem,nooverflow
+//@   callassert SetRVBlob#1: @to0dhash bytes(sig.To1d.Payload.Val.To0dHash.Value) == digest(happ(hinit(u(hashfn(sig.To1d.Payload.Val.To0dHash.Algorithm))), Enc(u(sig.To0d.Val))))
+//@   callassert SetRVBlob#1: @nonce u(sig.To0d.Val.NonceTO0Sign) == TO0NonceOf(u(ctx))
+//@   callassert SetRVBlob#1: @voucher u(*arg2) == u(sig.To0d.Val.Voucher)
+//@   callassert SetRVBlob#1: @blob u(*arg3) == u(sig.To1d.Sign1)
+//@   callassert SetRVBlob#1: @expiry AddedDur(u(arg4)) == int64(ttl) * 1000000000
+//@   callassert SetRVBlob#1: @policy s.AcceptVoucher != nil ==> ttl != 0 && u(ttl) == policyttl(ctx)
+//@   ensures @reply ? err == nil ==> result0 != nil && result0.WaitSeconds == ttl
